@@ -33,3 +33,46 @@ package generic
 //@   requires len(c.notContainsBytes) == 0 || c.notContainsBytes == N
 //@   ensures #trigger result <==> (((c.Contains != "" && contains(bb, C)) || (c.ContainsRe != nil && reMatch(c.ContainsRe, bb))) && !(c.NotContains != "" && contains(bb, N)))
 //@   ensures #cache-kept (len(c.containsBytes) == 0 || c.containsBytes == C) && (len(c.notContainsBytes) == 0 || c.notContainsBytes == N)
+
+// ---- C13: failure strings in force, stop-on-failed -------------------------------------------------
+
+//@ func NewOperation [C13 C19]
+//@   modifies alloc()
+//@   ensures #fresh result.1 == nil ==> fresh(result.0)
+//@   ensures #nil-on-error result.1 != nil ==> result.0 == nil
+//@   loop 1 invariant -1 <= rangeindex && rangeindex < len(options)
+
+//@ func (*Driver).sendCommand [C13]
+//@   modifies sent, driverOpts.FailedWhenContains, alloc()
+//@   ensures #one-exchange sent == old(sent) ++ strs(command)
+//@   ensures #nil-on-error result.1 != nil ==> result.0 == nil
+//@   ensures #precedence driverOpts.FailedWhenContains == (len(old(driverOpts.FailedWhenContains)) == 0 ? d.FailedWhenContains : old(driverOpts.FailedWhenContains))
+//@   ensures #response result.1 == nil ==> fresh(result.0) && respWF(result.0) && result.0.Input == command && result.0.FailedWhenContains == driverOpts.FailedWhenContains
+//@   ensures #failed-implies-contains result.1 == nil && result.0.Failed != nil ==> containsAnyS(result.0.Result, result.0.FailedWhenContains)
+//@   ensures #contains-implies-failed result.1 == nil && validFWC(result.0.FailedWhenContains) && containsAnyS(result.0.Result, result.0.FailedWhenContains) ==> result.0.Failed != nil
+
+//@ func (*Driver).SendCommand [C13]
+//@   modifies sent, alloc()
+//@   ensures #one-exchange result.1 == nil ==> sent == old(sent) ++ strs(command)
+//@   ensures #nil-on-error result.1 != nil ==> result.0 == nil
+//@   ensures #failed-implies-contains result.1 == nil && result.0.Failed != nil ==> containsAnyS(result.0.Result, result.0.FailedWhenContains)
+//@   ensures #contains-implies-failed result.1 == nil && validFWC(result.0.FailedWhenContains) && containsAnyS(result.0.Result, result.0.FailedWhenContains) ==> result.0.Failed != nil
+
+//@ func (*Driver).SendCommands [C13]
+//@   modifies sent, alloc()
+//@   ensures #empty-list len(commands) == 0 ==> isErr(result.1, util.ErrNoOp) && sent == old(sent)
+//@   ensures #nil-on-error result.1 != nil ==> result.0 == nil
+//@   ensures #at-least-one result.1 == nil ==> 1 <= len(result.0.Responses) && len(result.0.Responses) <= len(commands)
+//@   ensures #nothing-sent-after-last-response result.1 == nil ==> sent === old(sent) ++ commands[0:len(result.0.Responses)]
+//@   ensures #stopped-early-only-on-failure result.1 == nil && len(result.0.Responses) < len(commands) ==> result.0.Responses[len(result.0.Responses)-1].Failed != nil
+//@   ensures #multi-failed-iff-member result.1 == nil ==> ((result.0.Failed != nil) <==> (exists j int :: 0 <= j && j < len(result.0.Responses) && result.0.Responses[j].Failed != nil))
+//@   at return assert #stop-on-failed result.1 == nil && op.StopOnFailed ==> (forall j int :: 0 <= j && j < len(m.Responses) - 1 ==> m.Responses[j].Failed == nil)
+//@   at return assert #all-sent-without-stop result.1 == nil && !op.StopOnFailed ==> len(m.Responses) == len(commands)
+//@   loop 1 invariant -1 <= rangeindex && rangeindex < len(commands) - 1
+//@   loop 1 invariant err == nil && multiWF(m) && alive(m) && alive(op)
+//@   loop 1 invariant isnew(m) && (m.Failed != nil ==> isnew(as(m.Failed, "*response.MultiOperationError")))
+//@   loop 1 invariant unchanged(response.MultiResponse.Responses) && unchanged(response.MultiResponse.Failed) && unchanged(response.MultiResponse.EndTime) && unchanged(response.MultiResponse.ElapsedTime) && unchanged(response.MultiOperationError.Operations)
+//@   loop 1 invariant len(m.Responses) == rangeindex + 1
+//@   loop 1 invariant sent === old(sent) ++ commands[0:rangeindex+1]
+//@   loop 1 invariant op.StopOnFailed ==> (forall j int :: 0 <= j && j <= rangeindex ==> m.Responses[j].Failed == nil)
+//@   loop 1 invariant (m.Failed != nil) <==> (exists j int :: 0 <= j && j <= rangeindex && m.Responses[j].Failed != nil)
